@@ -188,6 +188,14 @@ func (g *Gen) Blocks(max int) []Blk {
 			// the empty identity CID (bafkqaaa): zero-length digest, zero-length block
 			ih, _ := mh.Sum(nil, mh.IDENTITY, -1)
 			out = append(out, Blk{cid.NewCidV1(cid.Raw, ih), []byte{}})
+		case k == 5 && g.pick(2) == 0:
+			// identity blocks of one length sharing a long prefix: near-twin digests in one index bucket
+			pre := g.bytes(9 + g.pick(20))
+			for t := 0; t < 2+g.pick(2); t++ {
+				d := append(append([]byte{}, pre...), byte(t), byte(g.pick(256)))
+				ih, _ := mh.Sum(d, mh.IDENTITY, -1)
+				out = append(out, Blk{cid.NewCidV1(cid.Raw, ih), d})
+			}
 		case k == 3 && g.pick(2) == 0:
 			// a long CID: identity multihash with a digest past the sizes parsers like to assume (128, 256)
 			d := g.bytes([]int{125, 127, 128, 129, 200, 255, 256, 300}[g.pick(8)])
